@@ -294,6 +294,7 @@ fn classes(v: &mut Verdict, case: &Case, ex: &[Expect]) {
             v.class_if(e.phase == Phase::Dead, "ops-after-termination");
         } else {
             v.class_if(matches!(e.phase, Phase::Sup | Phase::Pre | Phase::Syn), "local-write-linked");
+            v.class_if(e.phase == Phase::Unl, "local-write-unlinked");
         }
     }
     v.class_if(sup_event, "event-suppressed");
@@ -474,7 +475,7 @@ fn write_of(kind: Kind, r: &Raw) -> Write {
 /// Turn raw choices into a sequence a well-behaved link can produce:
 /// `(linked event* [synced event*] unlinked)*`, a refused link (`unlinked` while unlinked), for
 /// value downlinks at least one event before `synced`; local writes anywhere.
-fn legalise(kind: Kind, raws: &[Raw]) -> Vec<DOp> {
+fn legalise(kind: Kind, raws: &[Raw], with_writes: bool) -> Vec<DOp> {
     #[derive(PartialEq)]
     enum St {
         Unl,
@@ -491,7 +492,11 @@ fn legalise(kind: Kind, raws: &[Raw]) -> Vec<DOp> {
                     DOp::N(Note::Linked)
                 }
                 200..=211 => DOp::N(Note::Unlinked),
-                _ => DOp::W(write_of(kind, r)),
+                _ if with_writes => DOp::W(write_of(kind, r)),
+                _ => {
+                    st = St::Lnk { has_value: false };
+                    DOp::N(Note::Linked)
+                }
             },
             St::Lnk { has_value } => match r.c {
                 0..=149 => {
@@ -511,7 +516,11 @@ fn legalise(kind: Kind, raws: &[Raw]) -> Vec<DOp> {
                     st = St::Unl;
                     DOp::N(Note::Unlinked)
                 }
-                _ => DOp::W(write_of(kind, r)),
+                _ if with_writes => DOp::W(write_of(kind, r)),
+                _ => {
+                    st = St::Lnk { has_value: true };
+                    DOp::N(event_of(kind, r))
+                }
             },
             St::Syn => match r.c {
                 0..=179 => DOp::N(event_of(kind, r)),
@@ -519,7 +528,8 @@ fn legalise(kind: Kind, raws: &[Raw]) -> Vec<DOp> {
                     st = St::Unl;
                     DOp::N(Note::Unlinked)
                 }
-                _ => DOp::W(write_of(kind, r)),
+                _ if with_writes => DOp::W(write_of(kind, r)),
+                _ => DOp::N(event_of(kind, r)),
             },
         };
         ops.push(op);
@@ -554,8 +564,8 @@ fn arb_case(kind: Kind, max_ops: usize, legal: bool) -> impl Strategy<Value = Ca
             1 => Just(vec![true; max_ops]),
         ],
     )
-        .prop_map(move |((ewns, term, seed), budget, in_cap, raws, mut batch)| {
-            let ops = if legal { legalise(kind, &raws) } else { anyorder(kind, &raws) };
+        .prop_map(move |((ewns, term, seed, with_writes), budget, in_cap, raws, mut batch)| {
+            let ops = if legal { legalise(kind, &raws, with_writes) } else { anyorder(kind, &raws) };
             batch.truncate(ops.len());
             Case {
                 kind,
@@ -586,9 +596,9 @@ fn main() {
     ctx.assume("the reference fold (model.rs) is the meaning of the statement: state = fold of notifications since linked; local writes are not notifications; callbacks only when synced or events_when_not_synced");
     ctx.assume("for take/drop the statement fixes the state before and after the notification, not intermediate states: the reference accepts on_remove per entry in key order with the progressive or the final map, or on_clear when every entry goes; the differential part still requires client == hosted exactly");
     ctx.assume("key order of a map downlink = numeric order of the i32 keys (BTreeMap order = Recon Value order for Int32)");
-    let n_map = ctx.pick(40_000, 2_000_000);
-    let n_val = ctx.pick(20_000, 1_000_000);
-    let n_ill = ctx.pick(10_000, 500_000);
+    let n_map = ctx.pick(80_000, 4_000_000);
+    let n_val = ctx.pick(30_000, 1_500_000);
+    let n_ill = ctx.pick(15_000, 750_000);
     let max_ops = ctx.pick(40, 80);
     ctx.prop("map-legal", n_map, move || arb_case(Kind::Map, max_ops, true), check_legal);
     ctx.prop("value-legal", n_val, move || arb_case(Kind::Value, max_ops, true), check_legal);
